@@ -1061,72 +1061,18 @@ def enumerate_paths(body, limit=4000, max_visits=1, start=0):
         return sw_cache[bb]
 
     def step_consts(bb, consts):
-        """path-sensitive propagation of integer/bool constants through plain locals
-        (drop flags, `matches!` temporaries): returns the updated dict"""
-        c = consts
-        changed = False
-        for st in body.blocks[bb]["stmts"]:
-            if st["k"] != "assign" or st["place"]["p"]:
-                continue
-            l = st["place"]["l"]
-            rv = st["rv"]
-            val = None
-            if rv["k"] == "aggregate" and rv.get("agg") == "tuple":
-                # constants stored in a tuple that is taken apart again later: `let (text, is_debit) = if .. {(a, false)} ..`
-                for f in rv["fields"]:
-                    o = f["op"]
-                    fv = None
-                    if o.get("k") == "const" and "int" in o:
-                        fv = o["int"]
-                    elif o.get("k") in ("copy", "move") and not o["place"]["p"]:
-                        fv = c.get(o["place"]["l"])
-                    if fv is not None or (l, f["name"]) in c:
-                        if not changed:
-                            c = dict(c)
-                            changed = True
-                        if fv is None:
-                            del c[(l, f["name"])]
-                        else:
-                            c[(l, f["name"])] = fv
-                continue
-            if rv["k"] == "use":
-                o = rv["op"]
-                if o.get("k") == "const" and "int" in o:
-                    val = o["int"]
-                elif o.get("k") in ("copy", "move") and not o["place"]["p"]:
-                    val = c.get(o["place"]["l"])
-                elif o.get("k") in ("copy", "move") and len(o["place"]["p"]) == 1 and o["place"]["p"][0].get("k") == "field":
-                    val = c.get((o["place"]["l"], o["place"]["p"][0].get("name")))
-            elif rv["k"] == "unop" and rv["op"] == "Not":
-                o = rv["x"]
-                if o.get("k") in ("copy", "move") and not o["place"]["p"]:
-                    v = c.get(o["place"]["l"])
-                    if isinstance(v, tuple):
-                        val = ("call", v[1], not v[2])
-                    elif v is not None:
-                        val = 0 if v else 1
-            if val is not None:
-                if not changed:
-                    c = dict(c)
-                    changed = True
-                c[l] = val
-            elif l in c:
-                if not changed:
-                    c = dict(c)
-                    changed = True
-                del c[l]
+        """path-sensitive knowledge after block bb: constants in plain locals, enum variants just built (also nested in
+        payloads and tuple fields), and which call produced a boolean (see inline._const_env)"""
+        from . import inline as _inl
+        c = _inl._const_env(body.blocks[bb]["stmts"], consts)
         t = body.blocks[bb]["term"]
         if t["k"] == "call" and not t["dest"]["p"]:
             dl = t["dest"]["l"]
+            for k_ in [k_ for k_ in c if k_ == dl or (isinstance(k_, tuple) and k_[0] == dl)]:
+                del c[k_]
             if body.local_ty(dl) == "bool":
                 # remember which call produced this boolean: a later switch on a copy of it is a test of that call
-                if not changed:
-                    c = dict(c)
                 c[dl] = ("call", bb, True)
-            elif dl in c:
-                if not changed:
-                    c = dict(c)
-                del c[dl]
         return c
 
     # iterative DFS
@@ -1149,9 +1095,11 @@ def enumerate_paths(body, limit=4000, max_visits=1, start=0):
                 known = consts.get(d["place"]["l"])
             elif d.get("k") in ("copy", "move") and len(d["place"]["p"]) == 1 and d["place"]["p"][0].get("k") == "field":
                 # `match (a.is_empty(), b.is_empty())`: the switch reads a field of the tuple directly
-                known = consts.get((d["place"]["l"], d["place"]["p"][0].get("name")))
+                known = consts.get((d["place"]["l"], None, d["place"]["p"][0].get("name")))
             elif d.get("k") == "const" and "int" in d:
                 known = d["int"]
+            if isinstance(known, tuple) and known and known[0] != "call":
+                known = None        # a variant, not a number: the discriminant read that follows turns it into one
             if known is not None and not isinstance(known, tuple):
                 tb = t["otherwise"]
                 for v, x in t["targets"]:
